@@ -44,6 +44,84 @@ impl Display for Core {
     }
 }
 
+/// Binding strength of the Python expression a node is printed as (Python language reference,
+/// operator precedence): the higher, the tighter. Nodes that are not delimited at all get 0,
+/// nodes that are atoms (or are never printed as an operand) get 16.
+fn precedence(core: &Core) -> u8 {
+    match core {
+        Core::TupleLiteral { .. } | Core::Comprehension { .. } => 0,
+        Core::AnonFun { .. } => 1,
+        Core::Ternary { .. } => 2,
+        Core::Or { .. } => 3,
+        Core::And { .. } => 4,
+        Core::Not { .. } => 5,
+        Core::Ge { .. }
+        | Core::Geq { .. }
+        | Core::Le { .. }
+        | Core::Leq { .. }
+        | Core::Eq { .. }
+        | Core::Neq { .. }
+        | Core::Is { .. }
+        | Core::IsN { .. }
+        | Core::In { .. } => 6,
+        Core::BOr { .. } => 7,
+        Core::BXOr { .. } => 8,
+        Core::BAnd { .. } => 9,
+        Core::BLShift { .. } | Core::BRShift { .. } => 10,
+        Core::Add { .. } | Core::Sub { .. } => 11,
+        Core::Mul { .. } | Core::Div { .. } | Core::FDiv { .. } | Core::Mod { .. } => 12,
+        Core::AddU { .. } | Core::SubU { .. } | Core::BOneCmpl { .. } => 13,
+        Core::Pow { .. } => 14,
+        _ => 16,
+    }
+}
+
+/// Whether `child` must be parenthesised when printed as operand of `parent`, so that an
+/// operand that binds less tightly than its parent keeps its grouping in Python.
+/// `right` is false for the left-most operand.
+fn needs_parens(parent: &Core, child: &Core, right: bool) -> bool {
+    let (p, c) = (precedence(parent), precedence(child));
+    match parent {
+        // right associative, and a unary operator binds tighter only on its right-hand side
+        Core::Pow { .. } => {
+            if right {
+                c < 13
+            } else {
+                c <= p
+            }
+        }
+        // comparisons chain: `a < b < c` is not `(a < b) < c`
+        Core::Ge { .. }
+        | Core::Geq { .. }
+        | Core::Le { .. }
+        | Core::Leq { .. }
+        | Core::Eq { .. }
+        | Core::Neq { .. }
+        | Core::Is { .. }
+        | Core::IsN { .. }
+        | Core::In { .. } => c <= p,
+        Core::Not { .. } | Core::AddU { .. } | Core::SubU { .. } | Core::BOneCmpl { .. } => c < p,
+        // `then if cond else el`: the else branch is a full expression
+        Core::Ternary { .. } => {
+            if right {
+                c < 1
+            } else {
+                c <= p
+            }
+        }
+        // other operators: operands of the same level are printed as a plain chain
+        _ => c < p,
+    }
+}
+
+fn operand(child: &Core, parent: &Core, right: bool, ind: usize) -> String {
+    if needs_parens(parent, child, right) {
+        format!("({})", to_py(child, ind))
+    } else {
+        to_py(child, ind)
+    }
+}
+
 fn to_py(core: &Core, ind: usize) -> String {
     match core {
         Core::Import {
@@ -182,10 +260,18 @@ fn to_py(core: &Core, ind: usize) -> String {
         Core::Block { statements } => newline_delimited(statements, ind),
 
         Core::PropertyCall { object, property } => {
-            format!("{}.{}", to_py(object, ind), to_py(property, ind))
+            format!(
+                "{}.{}",
+                operand(object, core, false, ind),
+                to_py(property, ind)
+            )
         }
         Core::FunctionCall { function, args } => {
-            format!("{}({})", to_py(function, ind), comma_delimited(args, ind))
+            format!(
+                "{}({})",
+                operand(function, core, false, ind),
+                comma_delimited(args, ind)
+            )
         }
 
         Core::DictComprehension {
@@ -258,73 +344,73 @@ fn to_py(core: &Core, ind: usize) -> String {
         Core::Ge { left, right } => {
             format!(
                 "{} > {}",
-                to_py(left.as_ref(), ind),
-                to_py(right.as_ref(), ind)
+                operand(left, core, false, ind),
+                operand(right, core, true, ind)
             )
         }
         Core::Geq { left, right } => {
             format!(
                 "{} >= {}",
-                to_py(left.as_ref(), ind),
-                to_py(right.as_ref(), ind)
+                operand(left, core, false, ind),
+                operand(right, core, true, ind)
             )
         }
         Core::Le { left, right } => {
             format!(
                 "{} < {}",
-                to_py(left.as_ref(), ind),
-                to_py(right.as_ref(), ind)
+                operand(left, core, false, ind),
+                operand(right, core, true, ind)
             )
         }
         Core::Leq { left, right } => {
             format!(
                 "{} <= {}",
-                to_py(left.as_ref(), ind),
-                to_py(right.as_ref(), ind)
+                operand(left, core, false, ind),
+                operand(right, core, true, ind)
             )
         }
 
-        Core::Not { expr } => format!("not {}", to_py(expr.as_ref(), ind)),
+        Core::Not { expr } => format!("not {}", operand(expr, core, true, ind)),
         Core::And { left, right } => {
             format!(
                 "{} and {}",
-                to_py(left.as_ref(), ind),
-                to_py(right.as_ref(), ind)
+                operand(left, core, false, ind),
+                operand(right, core, true, ind)
             )
         }
         Core::Or { left, right } => {
             format!(
                 "{} or {}",
-                to_py(left.as_ref(), ind),
-                to_py(right.as_ref(), ind)
+                operand(left, core, false, ind),
+                operand(right, core, true, ind)
             )
         }
         Core::Is { left, right } => {
             format!(
                 "{} is {}",
-                to_py(left.as_ref(), ind),
-                to_py(right.as_ref(), ind)
+                operand(left, core, false, ind),
+                operand(right, core, true, ind)
             )
         }
         Core::IsN { left, right } => {
             format!(
                 "{} is not {}",
-                to_py(left.as_ref(), ind),
-                to_py(right.as_ref(), ind)
+                operand(left, core, false, ind),
+                operand(right, core, true, ind)
             )
         }
         Core::Eq { left, right } => {
             format!(
                 "{} == {}",
-                to_py(left.as_ref(), ind),
-                to_py(right.as_ref(), ind)
+                operand(left, core, false, ind),
+                operand(right, core, true, ind)
             )
         }
         Core::Neq { left, right } => {
             format!(
                 "{} != {}",
-                to_py(left.as_ref(), ind),
-                to_py(right.as_ref(), ind)
+                operand(left, core, false, ind),
+                operand(right, core, true, ind)
             )
         }
         Core::IsA { left, right } => {
@@ -335,55 +421,55 @@ fn to_py(core: &Core, ind: usize) -> String {
             )
         }
 
-        Core::AddU { expr } => format!("+{}", to_py(expr, ind)),
+        Core::AddU { expr } => format!("+{}", operand(expr, core, true, ind)),
         Core::Add { left, right } => {
             format!(
                 "{} + {}",
-                to_py(left.as_ref(), ind),
-                to_py(right.as_ref(), ind)
+                operand(left, core, false, ind),
+                operand(right, core, true, ind)
             )
         }
-        Core::SubU { expr } => format!("-{}", to_py(expr, ind)),
+        Core::SubU { expr } => format!("-{}", operand(expr, core, true, ind)),
         Core::Sub { left, right } => {
             format!(
                 "{} - {}",
-                to_py(left.as_ref(), ind),
-                to_py(right.as_ref(), ind)
+                operand(left, core, false, ind),
+                operand(right, core, true, ind)
             )
         }
         Core::Mul { left, right } => {
             format!(
                 "{} * {}",
-                to_py(left.as_ref(), ind),
-                to_py(right.as_ref(), ind)
+                operand(left, core, false, ind),
+                operand(right, core, true, ind)
             )
         }
         Core::Div { left, right } => {
             format!(
                 "{} / {}",
-                to_py(left.as_ref(), ind),
-                to_py(right.as_ref(), ind)
+                operand(left, core, false, ind),
+                operand(right, core, true, ind)
             )
         }
         Core::FDiv { left, right } => {
             format!(
                 "{} // {}",
-                to_py(left.as_ref(), ind),
-                to_py(right.as_ref(), ind)
+                operand(left, core, false, ind),
+                operand(right, core, true, ind)
             )
         }
         Core::Pow { left, right } => {
             format!(
                 "{} ** {}",
-                to_py(left.as_ref(), ind),
-                to_py(right.as_ref(), ind)
+                operand(left, core, false, ind),
+                operand(right, core, true, ind)
             )
         }
         Core::Mod { left, right } => {
             format!(
                 "{} % {}",
-                to_py(left.as_ref(), ind),
-                to_py(right.as_ref(), ind)
+                operand(left, core, false, ind),
+                operand(right, core, true, ind)
             )
         }
         Core::Sqrt { expr } => format!("math.sqrt({})", to_py(expr.as_ref(), ind)),
@@ -391,37 +477,37 @@ fn to_py(core: &Core, ind: usize) -> String {
         Core::BAnd { left, right } => {
             format!(
                 "{} & {}",
-                to_py(left.as_ref(), ind),
-                to_py(right.as_ref(), ind)
+                operand(left, core, false, ind),
+                operand(right, core, true, ind)
             )
         }
         Core::BOr { left, right } => {
             format!(
                 "{} | {}",
-                to_py(left.as_ref(), ind),
-                to_py(right.as_ref(), ind)
+                operand(left, core, false, ind),
+                operand(right, core, true, ind)
             )
         }
         Core::BXOr { left, right } => {
             format!(
                 "{} ^ {}",
-                to_py(left.as_ref(), ind),
-                to_py(right.as_ref(), ind)
+                operand(left, core, false, ind),
+                operand(right, core, true, ind)
             )
         }
-        Core::BOneCmpl { expr } => format!("~{}", to_py(expr, ind)),
+        Core::BOneCmpl { expr } => format!("~{}", operand(expr, core, true, ind)),
         Core::BLShift { left, right } => {
             format!(
                 "{} << {}",
-                to_py(left.as_ref(), ind),
-                to_py(right.as_ref(), ind)
+                operand(left, core, false, ind),
+                operand(right, core, true, ind)
             )
         }
         Core::BRShift { left, right } => {
             format!(
                 "{} >> {}",
-                to_py(left.as_ref(), ind),
-                to_py(right.as_ref(), ind)
+                operand(left, core, false, ind),
+                operand(right, core, true, ind)
             )
         }
 
@@ -433,8 +519,12 @@ fn to_py(core: &Core, ind: usize) -> String {
             to_py(col.as_ref(), ind),
             newline_if_body(body, ind)
         ),
-        Core::In { left, right } => format! {"{} in {}", to_py(left, ind), to_py(right, ind)},
-        Core::Index { item, range } => format!("{}[{}]", to_py(item, ind), to_py(range, ind)),
+        Core::In { left, right } => {
+            format! {"{} in {}", operand(left, core, false, ind), operand(right, core, true, ind)}
+        }
+        Core::Index { item, range } => {
+            format!("{}[{}]", operand(item, core, false, ind), to_py(range, ind))
+        }
         Core::If { cond, then } => {
             format!(
                 "if {}:{}",
@@ -451,9 +541,9 @@ fn to_py(core: &Core, ind: usize) -> String {
         ),
         Core::Ternary { cond, then, el } => format!(
             "{} if {} else {}",
-            to_py(then.as_ref(), ind),
-            to_py(cond.as_ref(), ind + 1),
-            to_py(el.as_ref(), ind + 1)
+            operand(then, core, false, ind),
+            operand(cond, core, false, ind + 1),
+            operand(el, core, true, ind + 1)
         ),
         Core::While { cond, body } => {
             format!(
